@@ -304,3 +304,53 @@ func reachesInvoke(fn *ssa.Function, method string, depth int) bool {
 	}
 	return false
 }
+
+// ruleSIDOwner: the server identity of a reply (DHCPv4 siaddr and option 54,
+// DHCPv6 Server Identifier option) is written by the server_id plugin only.
+// Any other first-party writer can leave a reply whose two identifiers
+// disagree or name another machine, whatever its position in the chain.
+func ruleSIDOwner(c *Ctx, rule string) {
+	pkgSID := modPath + "/plugins/serverid"
+	n := 0
+	for _, fn := range c.P.SrcFuncs() {
+		if isFixture(fn) {
+			continue
+		}
+		own := closureRoot(fn).Pkg != nil && closureRoot(fn).Pkg.Pkg.Path() == pkgSID
+		for _, b := range fn.Blocks {
+			for _, in := range b.Instrs {
+				what := ""
+				switch x := in.(type) {
+				case *ssa.Store:
+					if fa, ok := x.Addr.(*ssa.FieldAddr); ok && namedOf(fa.X.Type()) == pkgDHCP4+".DHCPv4" && fieldName(fa) == "ServerIPAddr" {
+						if _, fresh := fa.X.(*ssa.Alloc); !fresh {
+							what = "the siaddr field of a DHCPv4 packet"
+						}
+					}
+				case *ssa.Call:
+					if f := x.Call.StaticCallee(); f != nil {
+						switch f.String() {
+						case pkgDHCP4 + ".OptServerIdentifier":
+							what = "a DHCPv4 server identifier option (54)"
+						case pkgDHCP6 + ".OptServerID":
+							what = "a DHCPv6 Server Identifier option"
+						}
+					}
+				}
+				if what == "" {
+					continue
+				}
+				n++
+				key := fmt.Sprintf("%s writes server identity#%d", shortFn(fn), n)
+				if own {
+					c.R.ok(rule, key, c.P.InstrPos(in), shortFn(fn), what+" is built by the server_id plugin")
+				} else {
+					c.R.bad(rule, key, c.P.InstrPos(in), shortFn(fn), what+" is written outside the server_id plugin: a reply can leave with an identity other than (or inconsistent with) this server's")
+				}
+			}
+		}
+	}
+	if n == 0 {
+		c.R.bad(rule, "server identity writers", "-", "-", "no first-party code writes the server identity: shape not recognised")
+	}
+}
